@@ -76,7 +76,7 @@ PLAN = {
     'C02': dict(verus=ALL_V, kani=['f64-ast', 'number-ast'], level='proof', assumptions=AST_ASSUME + PARSER_ASSUME,
                 unclaimed=[
                            'the global bound 4096 + 256*len is derived on paper from the per-function measures, not machine-checked']),
-    'C10': dict(verus=ALL_V, kani=['i64-ast', 'f64-ast', 'number-ast'], level='proof', assumptions=AST_ASSUME + PARSER_ASSUME,
+    'C10': dict(verus=ALL_V, kani=['i64-ast', 'f64-ast', 'number-ast', 'number-l4'], level='proof', assumptions=AST_ASSUME + PARSER_ASSUME,
                 unclaimed=['function names / aliases (tokenizer keyword arms)', 'numerical accuracy of libm-backed functions, gamma, Lambert W',
                            'eval of decimal / complex']),
     'C11': dict(verus=ALL_V, kani=['f64-ast', 'number-ast'], level='proof', assumptions=AST_ASSUME + PARSER_ASSUME,
@@ -104,7 +104,7 @@ PLAN = {
     'C09': dict(verus=['number-tok', 'number-glue'], kani=['number-ast', 'number-l4'], level='proof', assumptions=KANI_ASSUME + TOK_ASSUME,
                 unclaimed=['value of Integer ^ Integer (Kani 0.68 mis-models this arm: its counterexamples do not replay natively)',
                            'value of the Float quotient / remainder beyond the bounded domain', 'value of ^ with a Float operand (open obligations K:number-ast/step_pow_ff, _fi, _if: CBMC does not finish them)']),
-    'C15': dict(verus=['i64-ast', 'f64-ast'] + PARSERS, kani=['i64-ast', 'number-ast', 'f64-ast'], tables_agree=True, level='proof',
+    'C15': dict(verus=['i64-ast', 'f64-ast'] + PARSERS, kani=['i64-ast', 'number-ast', 'f64-ast', 'number-l4'], tables_agree=True, level='proof',
                 assumptions=AST_ASSUME + KANI_ASSUME + PARSER_ASSUME + [
                     'agreement is obtained as a corollary, not as one relational theorem: (1) eval_i64 returns Ok(v) only for the exact integer v (Verus, all trees) and eval_number returns Integer(exact) on Integer operands whenever it fits (Kani, per constructor), '
                     '(2) every Float / mixed arm of eval_number has the numeric value of the IEEE operation that the same arm of eval_f64 applies (Kani, per constructor, bit-exact), '
